@@ -449,3 +449,236 @@ Proof.
       { cbn [npost]. repeat split; auto; try lia; try discriminate. }
       cbn [npost]. rewrite Hrc. repeat split; auto; try lia; try discriminate.
 Qed.
+
+Lemma name_get_ok buf blen :
+  bytes buf -> blen = zlen buf -> blen <= 65536 ->
+  forall d f off tgt name nmax,
+    0 <= off -> (1 <= d)%nat -> (off < blen -> Z.of_nat d > off) -> Z.of_nat f > blen ->
+    tgt_ok tgt name nmax ->
+    npost blen off tgt name nmax (name_get d f buf blen off tgt name nmax).
+Proof.
+  intros HB HL Hsz. assert (H0 : 0 <= blen) by (subst blen; unfold zlen; lia).
+  induction d as [|d IH]; intros f off tgt name nmax Ho Hd Hdo Hf Hok; [lia|].
+  cbn [name_get]. apply name_loop_ok; auto; try lia.
+  intros Hlt p t nm mx Hp Hok'. apply IH; auto; lia.
+Qed.
+
+(* ------------------------------------------------------------------------------------------ *)
+(* the C string in a target field                                                               *)
+(* ------------------------------------------------------------------------------------------ *)
+Lemma rd_cons c r k : 0 < k -> rd (c :: r) k = rd r (k - 1).
+Proof.
+  intros H. unfold rd. destruct (k <? 0) eqn:E1; [lia|]. destruct (k - 1 <? 0) eqn:E2; [lia|].
+  replace (Z.to_nat k) with (S (Z.to_nat (k - 1))) by lia. reflexivity.
+Qed.
+
+Lemma cstr_of_nul : forall t k, rd t k = Some 0 ->
+  exists s, cstr t = Some s /\ zlen s <= k /\ ~ In 0 s.
+Proof.
+  induction t as [|c r IH]; intros k H.
+  - apply rd_bound in H. cbn in H. lia.
+  - cbn [cstr]. destruct (c =? 0) eqn:E.
+    + exists []. apply rd_bound in H. cbn. repeat split; auto; lia.
+    + assert (Hk : 0 < k).
+      { pose proof (rd_bound _ _ _ H) as B. destruct (Z.eq_dec k 0) as [->|]; [|lia].
+        cbn in H. inversion H. lia. }
+      rewrite rd_cons in H by exact Hk. destruct (IH _ H) as (s & -> & L & N).
+      exists (c :: s). unfold zlen in *. cbn [length]. repeat split; auto; try lia.
+      intros [X|X]; [lia|auto].
+Qed.
+
+(* what a consumer of the list relies on for every record *)
+Definition target_ok (t : list Z) : Prop :=
+  zlen t = MAX_DOMAIN_LEN /\
+  exists s, cstr t = Some s /\ zlen s < MAX_DOMAIN_LEN /\ ~ In 0 s.
+
+(* ------------------------------------------------------------------------------------------ *)
+(* resolver_raw_srv_lookup_buf                                                                  *)
+(* ------------------------------------------------------------------------------------------ *)
+Section Lookup.
+Variable buf : list Z.
+Hypothesis HB : bytes buf.
+Hypothesis Hsz : zlen buf <= 65536.
+Let blen := zlen buf.
+Let fuel := S (length buf).
+
+Lemma fuel_gt : Z.of_nat fuel > blen.
+Proof. unfold fuel, blen, zlen. lia. Qed.
+
+Lemma name_len_at_ok j : 0 <= j ->
+  exists rc t, name_len_at fuel buf blen j = NRet rc t /\ (rc = 0 \/ (1 <= rc /\ j + rc <= blen)).
+Proof.
+  intros Hj. unfold name_len_at.
+  assert (P := name_get_ok buf blen HB eq_refl Hsz fuel fuel j [] None SIZE_MAX Hj).
+  assert (Q : npost blen j [] None SIZE_MAX (name_get fuel fuel buf blen j [] None SIZE_MAX)).
+  { apply P; try (pose proof fuel_gt; unfold fuel in *; lia). exact I. }
+  destruct (name_get fuel fuel buf blen j [] None SIZE_MAX) as [rc t| |]; cbn [npost] in Q; try tauto.
+  exists rc, t. split; [reflexivity|tauto].
+Qed.
+
+Lemma skip_questions_ok : forall n j, 0 <= j < 4294967296 ->
+  match skip_questions n fuel buf blen j with
+  | QOk j' => 0 <= j' < 4294967296
+  | QStop st => st = XMPP_DOMAIN_NOT_FOUND
+  | _ => False
+  end.
+Proof.
+  induction n as [|n IH]; intros j Hj; cbn [skip_questions]; [exact Hj|].
+  change (ovf_k 0) with 0. rewrite ovf_check_spec, Z.add_0_r, u32_small by lia.
+  destruct (blen <=? j) eqn:E; [reflexivity|].
+  destruct (name_len_at_ok j) as (rc & t & -> & Hrc); [lia|].
+  destruct (rc =? 0) eqn:E2; [reflexivity|].
+  apply IH. unfold u32. apply Z.mod_pos_bound. lia.
+Qed.
+
+Definition list_ok (l : list srv_rr) : Prop := Forall (fun r => target_ok (rr_target r)) l.
+
+Lemma srv_target_ok j : 0 <= j ->
+  exists rc t, name_get fuel fuel buf blen j (repeat 0 (Z.to_nat MAX_DOMAIN_LEN)) (Some 0) MAX_DOMAIN_LEN = NRet rc t /\
+               0 <= rc /\ (rc > 0 -> target_ok t).
+Proof.
+  intros Hj.
+  set (t0 := repeat 0 (Z.to_nat MAX_DOMAIN_LEN)).
+  assert (L0 : zlen t0 = MAX_DOMAIN_LEN) by (unfold zlen, t0; rewrite repeat_length; reflexivity).
+  assert (P := name_get_ok buf blen HB eq_refl Hsz fuel fuel j t0 (Some 0) MAX_DOMAIN_LEN Hj).
+  assert (Q : npost blen j t0 (Some 0) MAX_DOMAIN_LEN (name_get fuel fuel buf blen j t0 (Some 0) MAX_DOMAIN_LEN)).
+  { apply P; try (pose proof fuel_gt; unfold fuel in *; lia). cbn [tgt_ok]. rewrite L0. unfold MAX_DOMAIN_LEN. lia. }
+  destruct (name_get fuel fuel buf blen j t0 (Some 0) MAX_DOMAIN_LEN) as [rc t| |]; cbn [npost] in Q; try tauto.
+  destruct Q as (Q1 & Q2 & _ & Q4). exists rc, t. split; [reflexivity|]. split; [lia|].
+  intros Hrc. destruct (Q4 ltac:(lia) 0 eq_refl ltac:(unfold MAX_DOMAIN_LEN; lia)) as (k & Hk & Rk).
+  split; [lia|]. destruct (cstr_of_nul _ _ Rk) as (s & Hs & Ls & Ns).
+  exists s. repeat split; auto. lia.
+Qed.
+
+Lemma found_neq : XMPP_DOMAIN_FOUND <> XMPP_DOMAIN_NOT_FOUND.
+Proof. discriminate. Qed.
+
+Definition raw_post (r : lres) : Prop :=
+  match r with
+  | LDone st l => (st = XMPP_DOMAIN_FOUND \/ st = XMPP_DOMAIN_NOT_FOUND) /\
+                  (st = XMPP_DOMAIN_FOUND -> l <> []) /\ list_ok l
+  | _ => False
+  end.
+
+Lemma answers_ok : forall n j l, 0 <= j < 4294967296 -> list_ok l ->
+  raw_post (answers n fuel buf blen j l).
+Proof.
+  assert (NF := found_neq).
+  induction n as [|n IH]; intros j l Hj Hl; cbn [answers].
+  - cbn [raw_post]. destruct l; repeat split; auto; try congruence.
+  - change (ovf_k 1) with 0. change (ovf_k 2) with 9. change (ovf_k 3) with 6.
+    rewrite !ovf_check_spec, Z.add_0_r, (u32_small j) by lia.
+    assert (Stop : raw_post (LDone XMPP_DOMAIN_NOT_FOUND [])).
+    { cbn [raw_post]. repeat split; auto; try congruence. constructor. }
+    destruct (blen <=? j) eqn:E; [exact Stop|].
+    destruct (name_len_at_ok j) as (rc & t & -> & Hrc); [lia|].
+    destruct (rc =? 0) eqn:E2.
+    { cbn [raw_post]. repeat split; auto; congruence. }
+    rewrite (u32_small (j + rc)) by (fold blen in Hsz; lia).
+    set (j1 := j + rc). assert (Hj1 : 0 <= j1 <= blen) by lia. fold blen in Hsz.
+    rewrite (u32_small (j1 + 9)), ovf_check_spec by lia.
+    destruct (blen <=? j1 + 9) eqn:E3; [exact Stop|].
+    change rr_type_off with 0. change rr_class_off with 2. change rr_rdlength_off with 8.
+    change rr_fixed_len with 10.
+    rewrite Z.add_0_r, (u32_small j1), (u32_small (j1 + 2)), (u32_small (j1 + 8)), (u32_small (j1 + 10)) by lia.
+    destruct (rd16_in buf j1) as (ty & -> & Hty); try (fold blen; lia).
+    destruct (rd16_in buf (j1 + 2)) as (cl & -> & Hcl); try (fold blen; lia).
+    destruct (rd16_in buf (j1 + 8)) as (rdl & -> & Hrdl); try (fold blen; lia).
+    assert (Hnext : forall x, 0 <= u32 x < 4294967296) by (intros x; unfold u32; apply Z.mod_pos_bound; lia).
+    destruct ((ty =? MESSAGE_T_SRV) && (cl =? MESSAGE_C_IN)) eqn:E4; [|apply IH; auto].
+    set (j2 := j1 + 10).
+    fold j2. rewrite (u32_small (j2 + 6)), ovf_check_spec by lia.
+    destruct (blen <=? j2 + 6) eqn:E5; [exact Stop|].
+    change srv_prio_off with 0. change srv_weight_off with 2. change srv_port_off with 4.
+    change srv_target_off with 6.
+    rewrite Z.add_0_r, (u32_small j2), (u32_small (j2 + 2)), (u32_small (j2 + 4)), (u32_small (j2 + 6)) by lia.
+    destruct (rd16_in buf j2) as (pr & -> & Hpr); try (fold blen; lia).
+    destruct (rd16_in buf (j2 + 2)) as (we & -> & Hwe); try (fold blen; lia).
+    destruct (rd16_in buf (j2 + 4)) as (po & -> & Hpo); try (fold blen; lia).
+    destruct (srv_target_ok (j2 + 6)) as (rc2 & t2 & -> & Hrc2 & Ht2); [lia|].
+    apply IH; auto.
+    destruct (rc2 >? 0) eqn:E6; [|exact Hl].
+    constructor; [|exact Hl]. cbn [rr_target]. apply Ht2. lia.
+Qed.
+
+Lemma lookup_raw_ok : raw_post (lookup_raw buf).
+Proof.
+  assert (NF := found_neq).
+  unfold lookup_raw. fold blen. fold fuel.
+  assert (Stop : raw_post (LDone XMPP_DOMAIN_NOT_FOUND [])).
+  { cbn [raw_post]. repeat split; auto; try congruence. constructor. }
+  change MESSAGE_HEADER_LEN with 12.
+  destruct (blen <? 12) eqn:E; [exact Stop|].
+  change hdr_octet2_off with 2. change hdr_octet3_off with 3.
+  change hdr_qdcount_off with 4. change hdr_ancount_off with 6.
+  destruct (rd_in buf 2) as [o2 ->]; [fold blen; lia|].
+  destruct (rd_in buf 3) as [o3 ->]; [fold blen; lia|].
+  destruct (rd16_in buf 4) as (qd & -> & Hqd); try (fold blen; lia).
+  destruct (rd16_in buf 6) as (an & -> & Han); try (fold blen; lia).
+  match goal with |- context [if ?c then _ else _] => destruct c end; [exact Stop|].
+  assert (Q := skip_questions_ok (Z.to_nat qd) 12 ltac:(lia)).
+  destruct (skip_questions (Z.to_nat qd) fuel buf blen 12) as [j|st| |]; try tauto.
+  - apply answers_ok; [exact Q|constructor].
+  - subst st. exact Stop.
+Qed.
+
+End Lookup.
+
+(* ------------------------------------------------------------------------------------------ *)
+(* resolver_srv_lookup_buf: the statements of C15 (1)-(3)                                       *)
+(* ------------------------------------------------------------------------------------------ *)
+Definition unsorted_post (r : lres) : Prop :=
+  match r with
+  | LDone st l => (st = XMPP_DOMAIN_FOUND \/ st = XMPP_DOMAIN_NOT_FOUND) /\
+                  (st = XMPP_DOMAIN_FOUND <-> l <> []) /\ list_ok l
+  | _ => False
+  end.
+
+Lemma lookup_unsorted_ok buf : bytes buf -> zlen buf <= 65536 -> unsorted_post (lookup_unsorted buf).
+Proof.
+  intros HB Hsz. assert (R := lookup_raw_ok buf HB Hsz). unfold lookup_unsorted.
+  destruct (lookup_raw buf) as [st l| |]; cbn [raw_post] in R; try tauto.
+  destruct R as (R1 & R2 & R3).
+  destruct (negb (st =? XMPP_DOMAIN_FOUND) && match l with [] => false | _ => true end) eqn:E; cbn [unsorted_post].
+  - repeat split; auto; try (constructor; fail); try congruence. lia.
+  - repeat split; auto. intros Hl. destruct l; [congruence|]. lia.
+Qed.
+
+Lemma lookup_no_oob buf : bytes buf -> zlen buf <= 65536 ->
+  lookup buf <> LOOB /\ lookup buf <> LFuel.
+Proof.
+  intros HB Hsz. assert (R := lookup_unsorted_ok buf HB Hsz). unfold lookup.
+  destruct (lookup_unsorted buf) as [st l| |]; cbn [unsorted_post] in R; try tauto.
+  destruct (srv_sort_fuel_enough l) as (l' & ->). split; discriminate.
+Qed.
+
+Lemma lookup_consistent buf st l : bytes buf -> zlen buf <= 65536 ->
+  lookup buf = LDone st l ->
+  (st = XMPP_DOMAIN_FOUND \/ st = XMPP_DOMAIN_NOT_FOUND) /\
+  (st = XMPP_DOMAIN_FOUND <-> l <> []) /\
+  forall r, In r l ->
+    zlen (rr_target r) = MAX_DOMAIN_LEN /\
+    exists s, cstr (rr_target r) = Some s /\ zlen s < MAX_DOMAIN_LEN /\ ~ In 0 s.
+Proof.
+  intros HB Hsz H. assert (R := lookup_unsorted_ok buf HB Hsz). unfold lookup in H.
+  destruct (lookup_unsorted buf) as [st0 l0| |]; cbn [unsorted_post] in R; try discriminate.
+  destruct (srv_sort l0) as [l1|] eqn:S; [|discriminate]. inversion H; subst; clear H.
+  destruct R as (R1 & R2 & R3). apply srv_sort_sorted in S. destruct S as [P _].
+  split; [exact R1|]. split.
+  - rewrite R2. split; intros X Y; subst.
+    + apply Permutation_sym, Permutation_nil in P. auto.
+    + apply Permutation_nil in P. auto.
+  - intros r Hr. apply Permutation_sym in P. eapply Permutation_in in Hr; [|exact P].
+    unfold list_ok in R3. eapply Forall_forall in R3; [|exact Hr]. exact R3.
+Qed.
+
+Lemma lookup_sorted buf st l : lookup buf = LDone st l ->
+  exists u, lookup_unsorted buf = LDone st u /\ Permutation u l /\ StronglySorted srv_le l.
+Proof.
+  unfold lookup. destruct (lookup_unsorted buf) as [st0 l0| |]; try discriminate.
+  destruct (srv_sort l0) as [l1|] eqn:S; [|discriminate]. intros H; inversion H; subst; clear H.
+  apply srv_sort_sorted in S. exists l0. tauto.
+Qed.
+
+Lemma sort_fuel_enough l : srv_sort l <> None.
+Proof. destruct (srv_sort_fuel_enough l) as (l' & ->). discriminate. Qed.
